@@ -304,6 +304,19 @@ func TestVerifFaults(t *testing.T) {
 			sim.Reset()
 		}
 	}
+	/* garbage of another kind: a redirect to an address of hundreds of kilobytes (the next hop serves it): the fetch
+	   ends, with a document or an error, in the time a hop may take */
+	for _, size := range []int{40000, 300000} {
+		c := verifFaultCase{id: newID(), hops: 1, hop: 1, kind: "longloc", stage: "headers"}
+		f1, f2 := sim.Host("f1"), sim.Host("f2")
+		long := fmt.Sprintf("/%s/1?pad=%s", c.id, strings.Repeat("a", size))
+		f1.Set(fmt.Sprintf("/%s/0", c.id), &verifsim.Route{Raw: []byte("HTTP/1.1 302 Found\r\nLocation: https://" + f2.Addr + long + "\r\n\r\n")})
+		raw := "HTTP/1.1 200 OK\r\nContent-Type: application/activity+json\r\n\r\n" + verifDocBody(f2, long[:40], false)
+		f2.Set(long, &verifsim.Route{Raw: []byte(raw)})
+		f2.Fallback = &verifsim.Route{Raw: []byte(raw)}
+		verifRunFault(out, sim, c, f1.URL(fmt.Sprintf("/%s/0", c.id)), []byte(raw), 0)
+		sim.Reset()
+	}
 	/* a peer that accepts the TCP connection and never handshakes (own host: the fault is per host) */
 	for hops := 0; hops <= in.Hops; hops++ {
 		c := verifFaultCase{id: newID(), hops: hops, hop: hops, kind: "nohandshake", stage: "handshake"}
